@@ -195,6 +195,9 @@ func Evens(n int) Iter[int] {
 	}
 	return nil
 }
+
+// Item is an element type declared in a source file of the tool
+type Item struct{ N int }
 `,
 	9: `//go:build co
 
@@ -235,6 +238,14 @@ var Mk = func(n int) Iter[int] { return sub.Evens(n) }
 func Tripled(n int) Iter[int] {
 	for v := range Mk(n) {
 		Yield(v * 3)
+	}
+	return nil
+}
+
+// Items yields elements of a type that is declared in a source file of the sub-package
+func Items(xs []sub.Item) Iter[sub.Item] {
+	for _, x := range xs {
+		Yield(x)
 	}
 	return nil
 }
@@ -676,6 +687,14 @@ func depScenario(c *vf.Check, entry string) {
 	for _, e := range tr {
 		if e["op"] == "gen" {
 			what += fmt.Sprintf(" rc=%v after=%s;", e["rc"], briefFiles(e["after"]))
+		}
+	}
+	// KF34 (open): the output of the first run differs from the later ones when an element type comes from a package
+	// of the same run that has no generated file yet (named clause ProvisionalDep of Trace_Pipeline.tla)
+	if c.KF.Open("KF34", c.ID) {
+		if ok, _ := validateTraceCfg(c, "Trace_Pipeline", "Trace_Pipeline.cfg", trace, map[string]string{"AsBuiltDepType": "TRUE"}); ok {
+			c.Known("KF34", "p/dep_co.go (Items yields sub.Item, declared in p/sub/c_co.go), three runs of the tool in p on unchanged sources:"+what)
+			return
 		}
 	}
 	c.Violation(J{"scenario": "closure over a generator of a sub-package, three runs on unchanged sources", "script": script, "events": tr},
